@@ -26,6 +26,68 @@ pub struct Op {
     pub run: fn(&[u8], usize) -> DecOut,
 }
 
+thread_local! {
+    static VIA_PROBE: std::cell::Cell<bool> = const { std::cell::Cell::new(false) };
+}
+
+/// While set, every operation of the tables runs on `base.probe()` instead of on the decoder itself.
+pub fn set_via_probe(on: bool) {
+    VIA_PROBE.with(|v| v.set(on))
+}
+
+/// The decoder an operation runs on: a fresh decoder moved to `pos`, or (see `set_via_probe`) a probe of such a
+/// decoder. Dropping it checks that the probe left its parent where it was.
+pub struct Dec<'b> {
+    plain: Option<Decoder<'b>>,
+    probe: Option<minicbor::decode::Probe<'b, 'b>>,
+    base: *mut Decoder<'b>,
+    start: usize,
+}
+
+pub fn new_dec<'b>(b: &'b [u8], pos: usize) -> Dec<'b> {
+    let mut d = Decoder::new(b);
+    d.set_position(pos);
+    if VIA_PROBE.with(|v| v.get()) {
+        let base = Box::into_raw(Box::new(d));
+        // the probe borrows the boxed parent, which lives until `Dec` is dropped (the probe is dropped first)
+        let probe = unsafe { (*base).probe() };
+        Dec { plain: None, probe: Some(probe), base, start: pos }
+    } else {
+        Dec { plain: Some(d), probe: None, base: std::ptr::null_mut(), start: pos }
+    }
+}
+
+impl<'b> std::ops::Deref for Dec<'b> {
+    type Target = Decoder<'b>;
+    fn deref(&self) -> &Decoder<'b> {
+        match &self.probe {
+            Some(p) => p,
+            None => self.plain.as_ref().unwrap(),
+        }
+    }
+}
+
+impl<'b> std::ops::DerefMut for Dec<'b> {
+    fn deref_mut(&mut self) -> &mut Decoder<'b> {
+        match &mut self.probe {
+            Some(p) => p,
+            None => self.plain.as_mut().unwrap(),
+        }
+    }
+}
+
+impl Drop for Dec<'_> {
+    fn drop(&mut self) {
+        if !self.base.is_null() {
+            self.probe = None;
+            let parent = unsafe { Box::from_raw(self.base) };
+            if parent.position() != self.start && !std::thread::panicking() {
+                panic!("probe() moved its parent decoder from position {} to {}", self.start, parent.position());
+            }
+        }
+    }
+}
+
 fn out<T>(d: &Decoder, r: Result<T, minicbor::decode::Error>, f: impl FnOnce(T) -> Item) -> DecOut {
     DecOut { res: r.map(f).map_err(|e| classify(&e)), pos: d.position(), borrowed_inside: None }
 }
@@ -36,8 +98,7 @@ macro_rules! op {
             name: $name,
             kind: $kind,
             run: |b: &[u8], p: usize| {
-                let mut $d = Decoder::new(b);
-                $d.set_position(p);
+                let mut $d = new_dec(b, p);
                 let r = $call;
                 out(&$d, r, |$v| $conv)
             },
@@ -85,8 +146,7 @@ pub fn accessor_ops() -> Vec<Op> {
         name: "bytes()",
         kind: Shaped(Shape::Bytes),
         run: |b, p| {
-            let mut d = Decoder::new(b);
-            d.set_position(p);
+            let mut d = new_dec(b, p);
             let r = d.bytes();
             let ins = r.as_ref().ok().map(|s| inside(b, s.as_ptr(), s.len()));
             let mut o = out(&d, r, |x| Item::bytes(x));
@@ -98,8 +158,7 @@ pub fn accessor_ops() -> Vec<Op> {
         name: "str()",
         kind: Shaped(Shape::Str),
         run: |b, p| {
-            let mut d = Decoder::new(b);
-            d.set_position(p);
+            let mut d = new_dec(b, p);
             let r = d.str();
             let ins = r.as_ref().ok().map(|s| inside(b, s.as_ptr(), s.len()));
             let mut o = out(&d, r, |x| Item::text(x));
@@ -111,8 +170,7 @@ pub fn accessor_ops() -> Vec<Op> {
         name: "bytes_iter()",
         kind: Shaped(Shape::ByteChunks),
         run: |b, p| {
-            let mut d = Decoder::new(b);
-            d.set_position(p);
+            let mut d = new_dec(b, p);
             let mut ins = true;
             let r = (|| {
                 let mut chunks = Vec::new();
@@ -137,8 +195,7 @@ pub fn accessor_ops() -> Vec<Op> {
         name: "str_iter()",
         kind: Shaped(Shape::TextChunks),
         run: |b, p| {
-            let mut d = Decoder::new(b);
-            d.set_position(p);
+            let mut d = new_dec(b, p);
             let mut ins = true;
             let r = (|| {
                 let mut chunks = Vec::new();
@@ -165,8 +222,7 @@ pub fn accessor_ops() -> Vec<Op> {
                 name: $name,
                 kind: Shaped(Shape::Seq(Box::new($shape))),
                 run: |b, p| {
-                    let mut d = Decoder::new(b);
-                    d.set_position(p);
+                    let mut d = new_dec(b, p);
                     let r = (|| {
                         let mut items = Vec::new();
                         if $with {
@@ -202,8 +258,7 @@ pub fn accessor_ops() -> Vec<Op> {
                 name: $name,
                 kind: Shaped(Shape::Pairs(Box::new($ks), Box::new($xs))),
                 run: |b, p| {
-                    let mut d = Decoder::new(b);
-                    d.set_position(p);
+                    let mut d = new_dec(b, p);
                     let r = (|| {
                         let mut items = Vec::new();
                         if $with {
